@@ -97,7 +97,7 @@ broadcast use lemmas_alloc::lemma_header_write;
 //@stub unit=table_fat32 fn=fat32_find_free
 //@stub unit=table_fat32 fn=fat32_count_free
 
-// @obl props=C08,C09,C13 tier=quick fns=read_fat
+// @obl props=C03,C08,C09,C13 tier=quick fns=read_fat
 // @desc read_fat, any width, any table size: Ok(v) => v = the specification's classification of entry k; table unchanged; errors are stream errors (checked against the per-width contracts)
 //@extract file=src/table.rs fn=read_fat as=read_fat
 //@generics <S: Stream<E>, E>
@@ -129,7 +129,7 @@ broadcast use lemmas_alloc::lemma_header_write;
                 == raw32(old(fat).bytes(), cluster as int) & 0xF000_0000u32),
 //@endextract
 
-// @obl props=C02,C08,C09 tier=quick fns=get_next_cluster
+// @obl props=C02,C03,C08,C09 tier=quick fns=get_next_cluster
 // @desc get_next_cluster: Ok(Some(n)) iff entry k is a data pointer n (whatever its order on disk: fragmented / out-of-order chains are followed entry by entry); Ok(None) for free, bad and every end-of-chain marker
 //@extract file=src/table.rs fn=get_next_cluster as=get_next_cluster
 //@generics <S: Stream<E>, E>
